@@ -45,6 +45,7 @@ type Violation struct {
 	Schedule  []int               `json:"schedule,omitempty"`
 	Note      string              `json:"note,omitempty"`
 	Sites     []string            `json:"sites,omitempty"`
+	Choices   []int               `json:"choices"`
 }
 
 type HarnessResult struct {
@@ -247,6 +248,8 @@ type Path struct {
 	schedule                  []int
 	curSite                   string
 	siteLog                   []string
+	choiceTrace               []int
+	choicePos                 int
 }
 
 type loopKey struct {
@@ -387,6 +390,25 @@ func (p *Path) chooseN(n int) int {
 	if n <= 1 {
 		return 0
 	}
+	if rp := p.e.replay; rp != nil {
+		// concrete replay: choices come from the recorded counterexample, independent of symbolic-branch decisions
+		c := 0
+		if p.choicePos < len(rp.Choices) {
+			c = rp.Choices[p.choicePos]
+		}
+		p.choicePos++
+		if c >= n {
+			c = 0
+		}
+		p.choiceTrace = append(p.choiceTrace, c)
+		return c
+	}
+	c := p.chooseN0(n)
+	p.choiceTrace = append(p.choiceTrace, c)
+	return c
+}
+
+func (p *Path) chooseN0(n int) int {
 	idx := p.pos
 	p.pos++
 	if idx < len(p.prefix) {
@@ -457,7 +479,7 @@ func (p *Path) recordViolation(kind, msg string, m Model, note string) {
 	p.violations = append(p.violations, Violation{
 		Harness: p.e.cfg.Name, Pkg: p.e.cfg.Pkg, Kind: kind, Msg: msg,
 		Values: p.valuesFromModel(m), Decisions: append([]int{}, p.trace...), Schedule: append([]int{}, p.schedule...), Note: note,
-		Sites: append([]string{}, p.siteLog...),
+		Sites: append([]string{}, p.siteLog...), Choices: append([]int{}, p.choiceTrace...),
 	})
 }
 
@@ -599,7 +621,7 @@ func (e *Engine) RunHarness(cfg HarnessCfg, workers int) *HarnessResult {
 	e.res = res
 	e.work = []workItem{{}}
 	if e.replay != nil {
-		e.work = []workItem{{prefix: e.replay.Decisions}}
+		e.work = []workItem{{}}
 	}
 	e.busy = 0
 	e.stop = false
